@@ -74,6 +74,7 @@ func (ch *Chain) Open() error {
 		return err
 	}
 	ch.Opens++
+	ResetProcessGlobals() // a node that opens its ledger is a fresh process
 	err = st.InitLedgerStoreWithGenesisBlock(ch.Gen, []keypair.PublicKey{ch.Book.PublicKey})
 	if err != nil {
 		CloseStore(st)
